@@ -212,6 +212,14 @@ def Commissioning(available_addresses=None, readdress=False,
             if low == "clash":
                 yield progress(message="Multiple ballasts picked the same "
                                "random address; restarting")
+                if not dry_run:
+                    # Gear that has already been given an address is
+                    # withdrawn but still initialised: it would pick a
+                    # new random address too, and could then accept a
+                    # second short address.  Restart the search with
+                    # only the gear that is still unaddressed.
+                    yield Terminate()
+                    yield Initialise(broadcast=False)
                 break
             if low is None:
                 finished = True
